@@ -98,7 +98,7 @@ func VerifC31Sequential() {
 	var m c31Model
 	steps := vParam("STEPS", 3)
 	for i := 0; i < steps; i++ {
-		m.apply(x, vChoose(6), vChoose(2), vChoose(5), vChoose(3))
+		m.apply(x, vChoose(6), vChoose(2), vChoose(vParam("NF", 5)), vChoose(vParam("NT", 3)))
 		m.check(x)
 	}
 	if vParam("ANY", 0) == 0 {
